@@ -28,15 +28,20 @@ def dedup : List Bytes → List Bytes
   | [] => []
   | x :: xs => if xs.contains x then dedup xs else x :: dedup xs
 
+def regCreds (certs : List CertD) : List Bytes := certs.filterMap (fun c => match c with | .stakeReg c => some c | _ => none)
+def poolOps (certs : List CertD) : List Bytes := certs.filterMap (fun c => match c with | .poolReg o => some o | _ => none)
+def explicitOf : CertD → Int
+  | .explicitDeposit k => k
+  | _ => 0
+def refundOf (p : Params) : CertD → Int
+  | .explicitRefund k => k
+  | .stakeDereg => p.keyDeposit
+  | _ => 0
+
 /-- `_get_total_key_deposit` -/
 def totalKeyDeposit (p : Params) (certs : List CertD) (initialPool : Bool) : Int :=
-  let creds := certs.filterMap (fun c => match c with | .stakeReg c => some c | _ => none)
-  let ops := certs.filterMap (fun c => match c with | .poolReg o => some o | _ => none)
-  let explicit := (certs.map (fun c => match c with | .explicitDeposit k => k | _ => 0)).sum
-  let refunds := (certs.map (fun c => match c with
-    | .explicitRefund k => k | .stakeDereg => p.keyDeposit | _ => 0)).sum
-  p.keyDeposit * (dedup creds).length + explicit
-    + p.poolDeposit * (if initialPool then ((dedup ops).length : Int) else 0) - refunds
+  p.keyDeposit * (dedup (regCreds certs)).length + (certs.map explicitOf).sum
+    + p.poolDeposit * (if initialPool then ((dedup (poolOps certs)).length : Int) else 0) - (certs.map (refundOf p)).sum
 
 def posFilter (m : MultiAsset) : MultiAsset := MultiAsset.filter m (fun _ _ v => decide (v > 0))
 
@@ -148,10 +153,16 @@ def changeIndex (addr : Bytes) (outs : List Output) : Option Nat :=
       if o.addr = addr && (cur.isNone || o.amount.coin == 0) then go (i + 1) (some i) r else go (i + 1) cur r
   go 0 none outs
 
+/-- `self._outputs[i].amount = change.amount + self._outputs[i].amount` -/
+def addAt (c : Value) : Nat → List Output → List Output
+  | _, [] => []
+  | 0, o :: r => { o with amount := Value.add c o.amount } :: r
+  | i+1, o :: r => o :: addAt c i r
+
 /-- `_merge_changes` -/
 def mergeChanges (outs : List Output) (idx : Option Nat) (changes : List Output) : List Output :=
   match idx, changes with
-  | some i, [c] => outs.mapIdx (fun j o => if j = i then { o with amount := Value.add c.amount o.amount } else o)
+  | some i, [c] => addAt c.amount i outs
   | _, _ => outs ++ changes
 
 /-- the output list of the body after `_add_change_and_fee(change_address, merge_change)` with final fee `a.fee` -/
